@@ -666,6 +666,49 @@ def rule_unique_names(repo, rule):
                                    "the same context gets the same name" % k, "names/%s/%s" % (fi.qual, k))
 
 
+def rule_qualified_names(repo, rule):
+    """The counters are kept PER CONTEXT, so a number taken from one identifies something only together with that context.
+    Every composite name built around `str(vc_ctr[K])` / `str(vc_ioctr[K])` (wire ids, names of new contexts) must contain the
+    context K itself in the same concatenation; a bare counter value (block names) is fine where the record carries the context
+    next to it.  Otherwise two contexts at the same counter value produce the same global name (two calls of a function from
+    different callers share one context: its wires are written twice, its equations doubled)."""
+    import re
+    m = repo.module(QB)
+    n = 0
+    for fi in m.functions.values():
+        if isinstance(fi.node, ast.Lambda):
+            continue
+        seen = set()
+        for e in ast.walk(fi.node):
+            if not (isinstance(e, ast.BinOp) and isinstance(e.op, ast.Add)) or id(e) in seen:
+                continue
+            if not any(own is fi.node for own in [p for p in parents(e) if isinstance(p, (ast.FunctionDef, ast.Lambda))][:1]):
+                continue
+            parts = []
+
+            def flat(x):
+                if isinstance(x, ast.BinOp) and isinstance(x.op, ast.Add):
+                    seen.add(id(x))
+                    flat(x.left)
+                    flat(x.right)
+                else:
+                    parts.append(x)
+            flat(e)
+            ctrs = [p_ for p_ in parts if isinstance(p_, ast.Call) and norm(p_.func) == "str" and p_.args
+                    and re.match(r"^vc_(io)?ctr\[", norm(p_.args[0])) and isinstance(p_.args[0], ast.Subscript)]
+            if not ctrs or len(parts) < 2:
+                continue
+            n += 1
+            key = norm(ctrs[0].args[0].slice)
+            term = "%s: %s" % (fi.qual, norm(e)[:90])
+            if any(norm(p_) == key for p_ in parts):
+                rule.ok(fi.loc(e), fi.fq, term, "the name contains the context `%s` whose counter it uses" % key)
+            else:
+                rule.violation(fi.loc(e), fi.fq, term, "a global name is built from the per-context counter of `%s` without the context "
+                               "itself: the same counter value in another context yields the same name" % key, "names/unqualified/%s" % fi.qual)
+    return n
+
+
 def rule_digest(repo, rule):
     qs = repo.fn(QS, "qapsplit")
     raises = [n for n in ast.walk(qs.node) if isinstance(n, ast.Raise)]
@@ -744,8 +787,10 @@ def rule_members(repo, rule):
                            "paired blocks of a sub-circuit call then no longer line up member by member", "members/rebuild")
             ok = False
     rec = [c for c in writes_in(vdb.node, "qape") if c.args and isinstance(c.args[0], ast.Constant) and c.args[0].value == "[ioblock]"]
+    from ..flatten import resolve_locals as _rlm
+    rec_args = [_rlm(vdb.node, a_) for a_ in rec[0].args] if rec else []       # a token list built under a local name is that list
     if rec and any(isinstance(x, (ast.ListComp, ast.GeneratorExp)) and norm(x.generators[0].iter) == members and not x.generators[0].ifs
-                   for x in ast.walk(rec[0])):
+                   for a_ in rec_args for x in ast.walk(a_)):
         rule.ok(vdb.loc(rec[0]), vdb.fq, norm(rec[0])[:90], "[ioblock] lists every member")
     else:
         rule.violation(vdb.loc(), vdb.fq, norm(rec[0])[:90] if rec else "no [ioblock] record", "the [ioblock] record does not list every member "
@@ -894,6 +939,8 @@ def check(repo, rep, tier):
     rule_glue(repo, r5)
     r8 = rep.rule("R-C12-8", "wire / block names taken from a counter consume it (names are unique per context)", floor=5)
     rule_unique_names(repo, r8)
+    r11 = rep.rule("R-C12-11", "names built from a per-context counter contain the context (globally unique wire and call names)", floor=3)
+    rule_qualified_names(repo, r11)
     r6 = rep.rule("R-C12-6", "inconsistent function bodies are reported", floor=3)
     rule_digest(repo, r6)
     r10 = rep.rule("R-C12-10", "records shared through tables are keyed by the value itself, never by hash(value)", floor=2)
